@@ -1305,6 +1305,83 @@ fn rset_section(cx: &mut Cx)
 	merge(cx, vec![found]);
 }
 
+/// accepted immediates moved by a power of two far outside the field (`2^16, 2^17, 2^20, 2^24, 2^31` up and down, as far as the Rust
+/// type of the field holds them): judged exactly like every other tuple (model, ARMv6-M table / round trip) — a width confusion in
+/// front of a range check makes the encoder accept such a value and emit another instruction's pattern
+fn shifted_immediates(id: &str, cx: &mut Cx)
+{
+	// (tag, fields with `V` = position of the immediate, immediate candidates)
+	let regs_lo = [0i64, 3, 7];
+	let mut n = 0u64;
+	let shifts: [i64; 10] = [1 << 16, 1 << 17, 1 << 20, 1 << 24, 1 << 31, -(1 << 16), -(1 << 17), -(1 << 20), -(1 << 24), -(1 << 31)];
+	let mut tuples: Vec<(usize, Vec<i64>, usize)> = Vec::new();   // tag, fields, index of the immediate
+	let mut texts: Vec<String> = Vec::new();
+	for (t, name) in NAMES.iter().enumerate()
+	{
+		match KINDS[t]
+		{
+			// register, register, ImmReg
+			"RRX" => for d in regs_lo {for a in [1i64, 13] {tuples.push((t, vec![d, a, 0, 0], 3));}},
+			"FRRX" => for fl in [0i64, 1] {for d in [0i64, 2, 13] {for a in [d, 13, 15] {tuples.push((t, vec![fl, d, a, 0, 0], 4));}}},
+			"RX" => for d in regs_lo {tuples.push((t, vec![d, 0, 0], 2));},
+			"FRX" => for fl in [0i64, 1] {for d in regs_lo {tuples.push((t, vec![fl, d, 0, 0], 3));}},
+			"CI" => for c in [0i64, 13, 14] {tuples.push((t, vec![c, 0], 1));},
+			"RI" => for d in regs_lo {tuples.push((t, vec![d, 0], 1));},
+			"I" => tuples.push((t, vec![0], 0)),
+			_ => {let _ = name;},
+		}
+	}
+	for (t, base, at) in tuples
+	{
+		// accepted immediates of this tuple among a few hundred candidates
+		let mut accepted: Vec<i64> = Vec::new();
+		for v in (0..=1100i64).chain([-2048, -256, -4, -2, 2046, 4094, 65534, 65535, (1 << 24) - 2, -(1 << 24)])
+		{
+			let mut f = base.clone();
+			f[at] = v;
+			if let Some(i) = of_fields(t, &f) {if matches!(real_enc(&i), Enc::Ok(..)) {accepted.push(v);}}
+		}
+		// a spread of them: smallest, largest, a few in between
+		let picks: Vec<i64> = if accepted.len() <= 6 {accepted.clone()} else {vec![accepted[0], accepted[1], accepted[accepted.len() / 2], accepted[accepted.len() - 2], accepted[accepted.len() - 1]]};
+		for v in picks
+		{
+			for sh in shifts
+			{
+				let mut f = base.clone();
+				f[at] = v + sh;
+				if of_fields(t, &f).is_none() {continue;}   // outside the Rust type of the field
+				texts.push(show_fields(t, &f));
+				n += 1;
+			}
+		}
+	}
+	cx.report.hit_n("accepted immediates shifted by a power of two", n);
+	// in bulk: the model's encoder, then the table side (C01) or the round trip (C02)
+	let encs: Vec<(String, Instruction, Enc)> = texts.iter().map(|t| {let (_, _, i) = parse_instr(t).expect("own text"); (t.clone(), i, real_enc(&i))}).collect();
+	let replies = cx.model.ask_many(&encs.iter().map(|(t, _, _)| format!("codec enc {t}")).collect::<Vec<_>>());
+	let mut found = Found::default();
+	for ((t, _, e), r) in encs.iter().zip(replies.iter()) {if show_enc(e) != *r {found.disagree("model.codec.encode", format!("enc {t}"), r.clone(), show_enc(e));}}
+	if id == "C01"
+	{
+		// the table's own encoding of a REJECTED tuple is an expensive request: every eighth one; every accepted tuple is decoded by the table
+		let judged: Vec<&(String, Instruction, Enc)> = encs.iter().enumerate().filter(|(k, (_, _, e))| matches!(e, Enc::Ok(..)) || k % 8 == 0).map(|(_, x)| x).collect();
+		let asks: Vec<String> = judged.iter().map(|(t, _, e)| match e {Enc::Ok(n, b) => format!("codec spec {}", hex(&b[..*n])), _ => format!("codec specenc {t}")}).collect();
+		let answers = cx.model.ask_many(&asks);
+		for ((t, _, e), a) in judged.iter().map(|x| (&x.0, &x.1, &x.2)).zip(answers.iter())
+		{
+			match e
+			{
+				Enc::Ok(n, b) => if *a != format!("some {t}") {found.fail(format!("enc {t}"), format!("emitted {} which the ARMv6-M table decodes as `{a}`", hex(&b[..*n])));},
+				Enc::Unrep => if a != "none" {found.fail(format!("enc {t}"), format!("rejected as unrepresentable although the ARMv6-M table encodes exactly these operands as {a}"));},
+				other => found.fail(format!("enc {t}"), format!("encode into a 4-byte buffer returned `{}`", show_enc(other))),
+			}
+		}
+	}
+	else {for (t, i, e) in &encs {let t = t.clone(); c02_oracle(i, e, &move || t.clone(), &mut found);}}
+	found.evaluations = n;
+	merge(cx, vec![found]);
+}
+
 fn run_enc(id: &str, cx: &mut Cx)
 {
 	let thorough = cx.thorough();
@@ -1324,6 +1401,7 @@ interval plus the type maximum); B: all offsets -2051..2050 for all 15 condition
 	cx.report.exhaustive = true;
 	public_values(cx, None);
 	rset_section(cx);
+	shifted_immediates(id, cx);
 
 	// a few single requests: samples, and the output-buffer overflow behaviour
 	for text in ["adc 0 1", "add 0 8 8 1 0", "add 0 13 13 0 508", "bl -4", "b 14 -2048", "msr 16 3", "udfw 4660", "pop 32769", "cps 1", "ldm 0 0", "adc 8 0", "cmp 15 1 0"]
